@@ -318,6 +318,7 @@ func main() {
 	batchSize := mon.N(500, 2000)
 	inKey, invKey := mon.KeyIn, mon.KeyInvalid
 
+	var tLoop, tAgg, tBad time.Duration
 	var nLines, nValid, nRejected, nBadChecked, nDocSure, nDisagree, nSentinel int
 	classCount := map[string]int{}
 	disagree := map[string]int{}
@@ -364,6 +365,7 @@ func main() {
 			touched := map[string]bool{}
 			validKeys := map[string]string{}
 			validInBatch := 0
+			tPhase := time.Now()
 			for i := 0; i < n; i++ {
 				id := "i" + strconv.FormatInt(int64(ci), 36) + "b" + strconv.FormatInt(int64(b), 36) + "n" + strconv.FormatInt(int64(i), 36) + "z" // unique per table, stable under replay
 				g := genLine(r, id)
@@ -447,6 +449,8 @@ func main() {
 				}
 			}
 			res.Eval(n)
+			tLoop += time.Since(tPhase)
+			tPhase = time.Now()
 
 			// aggregation: FIFO sentinel barrier, then exact count
 			sent := [][]byte{[]byte("c02.sentinel"), []byte("1"), []byte("1600000000")}
@@ -465,6 +469,8 @@ func main() {
 				res.Violate("agg-count", fmt.Sprintf("levels %s batch %d: %d valid lines dispatched, the match-all aggregation counted %d inputs", cb, b, validInBatch, got-aggBase-1), map[string]interface{}{"combo_index": ci, "levels": cb, "batch": b, "stream": 200 + ci})
 			}
 
+			tAgg += time.Since(tPhase)
+			tPhase = time.Now()
 			// bad-metrics report (asynchronous: bounded retries)
 			var problems []string
 			var probW map[string]interface{}
@@ -505,6 +511,7 @@ func main() {
 				}
 				time.Sleep(5 * time.Millisecond)
 			}
+			tBad += time.Since(tPhase)
 			nBadChecked += len(touched)
 			if len(problems) > 0 {
 				sort.Strings(problems)
@@ -516,6 +523,9 @@ func main() {
 		res.Count("tables", 1)
 	}
 
+	res.Count("ms_dispatch_and_oracles", int(tLoop/time.Millisecond))
+	res.Count("ms_aggregation_barriers", int(tAgg/time.Millisecond))
+	res.Count("ms_bad_report_checks", int(tBad/time.Millisecond))
 	res.Count("lines_dispatched", nLines)
 	res.Count("lines_valid", nValid)
 	res.Count("lines_rejected", nRejected)
